@@ -27,7 +27,7 @@ REQUIRED_CLAUSES = ["jacobian.derivative", "jacobian.explicit_elsewhere", "stati
 def plan(tier, seed):
     if tier == "quick":
         return [{"n": 25, "timeout_s": 1800} for _ in range(16)]
-    return [{"n": 1250, "timeout_s": 14400} for _ in range(16)]
+    return [{"n": 12000, "timeout_s": 14400} for _ in range(16)]
 
 
 def gen_case(rng):
